@@ -1,5 +1,5 @@
 \* negative control in the plan vocabulary: dispatch is eager except while the collection watch goroutine is held in a
-\* callback (what a replay can force).  SkipSeenByListing must violate through hold ... list ... release, sync.
+\* callback (what a replay can force).  SkipSeenByListing must violate through hold, write, list, release.
 SPECIFICATION Spec
 CHECK_DEADLOCK FALSE
 VIEW view
